@@ -15,7 +15,16 @@ RULE = ("generated: grammar-G programs (tools/proggen.py; instructions, data, st
         "every compile_block invocation is one case: (start, per statement ready/announced/produced/address, end); judged in Coq: "
         "bit0 Model.Block recurrence = observed addresses, bit1 announced = produced and address = start + bytes before; image "
         "placement (bytes at addr-base = statement's bytes) judged in Coq for images <= 3000 bytes and re-checked in Python for all. "
-        "non-trivial = distinct block containing >= 1 statement that was still deferred when its address was committed")
+        "non-trivial = distinct block containing >= 1 statement that was still deferred when its address was committed. "
+        "loaded-image stream: programs that request output containers (make_bin, make_bk0010_rom, make_wav, make_turbo_wav, make_raw, with and "
+        "without path / tape name, 1-3 requests at any position) at even AND odd link bases over the whole 16-bit range ('.link B', '. = B', "
+        "'.link <expr>', default base; byte-only programs, and programs with word data behind .even; grammar-G programs with a request "
+        "appended); the containers are produced by the real Compiler.emit_files (open_device replaced by an in-memory writer) and by "
+        "file_formats[bin|raw](base, code) as the command line's -o does, read back by independent readers (bin header; BK tape pulse "
+        "widths, normal and turbo) and judged against THE CONTAINER'S OWN load address: every statement's bytes must lie at (address it "
+        "was given - load address) in the payload (Coq judge_image, and Python), label values stored byte-wise in the image must point at "
+        "their marker bytes (model-free read-back), payload length = announced length = sum of sizes. non-trivial there = distinct "
+        "(format, route, base, image)")
 LEVEL_TEXT = ("Coq theorems over the running-address model of compile_block/.repeat/.include/linking: under 'announced size = final size' "
               "every statement at every nesting depth is told base + bytes-before, the image slice at that address is its bytes, image "
               "length = sum of sizes (induction over nested statement lists, unbounded); sensitivity theorem shows the hypothesis is "
@@ -25,7 +34,10 @@ LEVEL_NOTE = ("Trusted: Coq kernel + vm_compute; the 6-site PDPY11_VERIF hook in
               "The per-directive discharge of 'announced = final' is C06's announce_eq_emit (regenerated size lambdas) and C01's "
               "instruction length lemma; here it is checked on each real chunk. D2: blocks of an included file that sets its own "
               "link base are excluded (their addresses deliberately differ from where the bytes land). All theorems closed under "
-              "the global context.")
+              "the global context. Loaded-image stream: the container readers in tools/c02_worker.py (bin header, BK tape demodulator) are "
+              "trusted Python written from the format descriptions, used only to recover (load address, length, payload); the well-formedness "
+              "of the containers themselves (RIFF header, checksum, tape name, output path) is C13's and is not judged here; the -o route is "
+              "exercised as the call _cli.py makes, not through a subprocess.")
 TECHNIQUE = "Coq proof (induction over nested blocks) + hook-trace model/implementation correspondence"
 ASSUME = ["the hook records exactly the (statement, address, chunk) triples compile_block uses", "CPython bytes/len semantics"]
 TRUSTED = ["/repo hook commits (PDPY11_VERIF): compile_block records statement/address/chunk, block enter/exit, labels"]
@@ -301,12 +313,26 @@ def explore(rep, br, tier, seed):
 def replay(data):
     inp = data["input"]
     fs = {k: (bytes.fromhex(v) if k.endswith(".bin") else v) for k, v in (inp.get("fs") or {}).items()}
-    o = impl.assemble([tuple(f) for f in inp["files"]], fs=fs or None, post="c02_worker:post")
+    o = impl.assemble([tuple(f) for f in inp["files"]], fs=fs or None, post="c02_worker:post_emit")
     if o["outcome"] != "ok":
         print("outcome now:", o["outcome"], o.get("crash"))
         return False
     ok = True
     base, image = o["base"], bytes.fromhex(o["code"])
+    for c in o["post"].get("containers", []):
+        if "refused" in c or "err" in c or any(b["own_base"] for b in o["post"]["blocks"]):
+            continue
+        load, payload = (base if c["load"] is None else c["load"]), bytes.fromhex(c["payload"])
+        for b in o["post"]["blocks"]:
+            for r in b["recs"]:
+                bs = bytes.fromhex(r["bytes"])
+                if bs and (r["a"] < load or payload[r["a"] - load:r["a"] - load + len(bs)] != bs):
+                    print("container %s (%s) loaded from %#o: statement %r given %#o is not there" % (c["fmt"], c["via"], load, r["t"], r["a"]))
+                    ok = False
+                    break
+        if c["length"] != len(payload) or len(payload) != len(image):
+            print("container %s (%s): announced %d, carries %d, image %d" % (c["fmt"], c["via"], c["length"], len(payload), len(image)))
+            ok = False
     for b in o["post"]["blocks"]:
         if b["own_base"]:
             continue
@@ -320,6 +346,186 @@ def replay(data):
                 print("misplaced:", r["t"], "given", r["a"])
                 ok = False
     return ok
+
+
+# --- loaded image: the containers the program asks for (make_bin, make_bk0010_rom, make_wav, make_turbo_wav, make_raw) and the
+# ones the command line builds (-o x.bin / x.raw) say where the bytes are loaded; the addresses the statements were given
+# must be addresses of THAT image, for every link base, even or odd
+ODD_BASES = [1, 3, 0o777, 0o1001, 0o1003, 0o2001, 0o40001, 0o40003, 0o77777, 0o100001, 0o157775, 0o177001]
+EVEN_BASES = [0, 2, 0o1000, 0o2000, 0o40000, 0o100000, 0o157776, 0o177000]
+EMITTERS = ['make_bin "o%d.bin"', "make_bin", 'make_bk0010_rom "r%d.bin"', 'make_wav "w%d.wav"', 'make_wav "w%d.wav", "TAPE%d"',
+            'make_turbo_wav "t%d.wav"', 'make_turbo_wav "t%d.wav", "T%d"', 'make_raw "x%d.raw"', "make_wav", "make_turbo_wav"]
+
+
+def emit_cases(rng, n):
+    """Programs that request output containers.  Half are byte-only (no word-sized statement, no alignment: every address
+    keeps the parity of the base, so an odd base stays legal), half mix in word data and instructions behind .even.  The
+    first statement is a table of label values stored byte-wise, each label marks two marker bytes (252, k): the values
+    can be read back from the loaded image without the hook.  Bases: explicit '.link B' / '. = B' / '.link <expr>' / none,
+    B even and odd over the whole 16-bit range; 1-3 output requests per program at any position."""
+    out = []
+    for i in range(n):
+        odd = i % 3 != 2
+        byte_only = rng.random() < 0.5
+        form = rng.choice(["link", "link", "dot", "expr", "none"])
+        if rng.random() < 0.25:
+            base = rng.randrange(0, 0o177000) | (1 if odd else 0)
+            base -= 0 if odd else base % 2
+        else:
+            base = rng.choice(ODD_BASES if odd else EVEN_BASES)
+        if form == "none":
+            base, head = 0o1000, []
+        elif form == "link":
+            head = [".link %o" % base]
+        elif form == "dot":
+            head = [". = %o" % base]
+        else:
+            head = [".link %o + %o" % (base - base % 8, base % 8)]
+        nl = rng.randint(1, 4)
+        labels = ["L%d" % k for k in range(nl)]
+        body = ["tab: .byte " + ", ".join("<%s & 377>, <%s / 400>" % (l, l) for l in labels)]
+        fs = {}
+        fwd = []
+        todo = list(labels)
+        nst = rng.randint(nl + 2, nl + 12)
+        for j in range(nst):
+            if todo and (rng.random() < 0.35 or nst - j <= len(todo)):
+                l = todo.pop(0)
+                body.append("%s: .byte 252, %d" % (l, labels.index(l) + 1))
+                continue
+            c = rng.random()
+            if c < 0.2:
+                body.append(".byte " + ", ".join("%o" % rng.randint(0, 251) for _ in range(rng.randint(1, 5))))
+            elif c < 0.32:
+                body.append(rng.choice(['.ascii "%s"', ".asciz /%s/", ".ascii /%s/ <15>"]) % "".join(rng.choice("abcXYZ 019") for _ in range(rng.randint(1, 7))))
+            elif c < 0.42:
+                body.append(".blkb %o" % rng.randint(1, 9))
+            elif c < 0.5:
+                name = "n%d" % len(fwd)
+                fwd.append("%s = %d" % (name, rng.randint(1, 5)))
+                body.append(rng.choice([".blkb %s", ".repeat %s { .byte 7 }"]) % name)
+            elif c < 0.6:
+                body.append(".repeat %d { .byte %o\n .ascii /q/ }" % (rng.randint(1, 4), rng.randint(0, 200)))
+            elif c < 0.68:
+                fn = "b%d.bin" % len(fs)
+                fs[fn] = bytes(rng.randint(0, 251) for _ in range(rng.randint(1, 9)))
+                body.append('insert_file "%s"' % fn)
+            elif c < 0.74 and form != "none":
+                body.append(". = . + %d" % rng.randint(0, 5))
+            elif c < 0.8:
+                body.append(".byte . & 377")
+            elif byte_only:
+                body.append(".byte %o" % rng.randint(0, 251))
+            else:
+                body.append(".even\n" + rng.choice([".word ., 125252", ".word %s" % rng.choice(labels), "mov #%s, r0" % rng.choice(labels), "nop",
+                                                    ".align 4", ".dword 1", "%d: br %d" % (j + 1, j + 1), "%o, %o" % (rng.randint(0, 9), rng.randint(0, 9))]))
+        for l in todo:
+            body.append("%s: .byte 252, %d" % (l, labels.index(l) + 1))
+        for k in range(rng.randint(1, 3)):
+            e = rng.choice(EMITTERS)
+            e = e % ((i,) * e.count("%d"))
+            body.insert(rng.randint(0, len(body)), e)
+        out.append(("emit", [("e.mac", "\n".join(head + body + fwd) + "\n")], fs, {"base": base, "labels": labels, "byte_only": byte_only, "form": form}))
+    # grammar-G programs (always with an explicit base, 1-2 files) that also request containers
+    prof = proggen.Profile(n_files=(1, 2), link="always", n_stmts=(4, 20))
+    for i in range(n // 4):
+        p = proggen.gen_program(rng, prof)
+        files = list(p.files)
+        e = rng.choice(EMITTERS)
+        files[-1] = (files[-1][0], files[-1][1].rstrip("\n") + "\n" + e % ((i,) * e.count("%d")) + "\n")
+        out.append(("emit-gen", files, p.fs, {"labels": []}))
+    return out
+
+
+def explore_emit(rep, tier, seed):
+    rng = random.Random(seed * 7 + 2)
+    cases = emit_cases(rng, 150 if tier == "quick" else 2000)
+    jobs = [((files,), {"fs": fs, "post": "c02_worker:post_emit"}) for _, files, fs, _ in cases]
+    outs = impl.pmap("assemble", jobs)
+    terms, refs = [], []
+    for ci, ((origin, files, fs, meta), o) in enumerate(zip(cases, outs)):
+        rep.add_eval()
+        rep.count(f"{origin}:{o['outcome']}")
+        inp = {"files": files, "fs": {k: (v if isinstance(v, str) else v.hex()) for k, v in (fs or {}).items()}}
+        if o["outcome"] == "harness-error":
+            rep.disagree("harness error while running the implementation", {"files": files}, impl=o.get("error"))
+            continue
+        if o["outcome"] != "ok":
+            if origin == "emit":
+                rep.violate(f"not-ok:emit:{meta['form']}:{'odd' if meta['base'] % 2 else 'even'}:{'bytes' if meta['byte_only'] else 'mixed'}",
+                            "a well-formed program (word-sized statements only behind .even) was refused", inp,
+                            impl={k: o.get(k) for k in ("outcome", "crash", "diags")})
+            continue
+        post = o.get("post") or {}
+        if "error" in post or post.get("anomalies"):
+            rep.disagree("hook trace unusable", {"files": files}, impl=post.get("error") or post.get("anomalies"))
+            continue
+        if any(b["own_base"] for b in post["blocks"]):
+            rep.count("program:emit-skipped-D2")
+            continue
+        base, image = o["base"], bytes.fromhex(o["code"])
+        if origin == "emit" and base != meta["base"]:
+            rep.violate("emit-base", "the link base is not the one the program set", inp, expected=meta["base"], got=base)
+        if post["requested"] != post["written"]:
+            rep.disagree("a requested container was not written", inp, impl={"requested": post["requested"], "written": post["written"]})
+        chunks = [(r["a"], r["bytes"], r["t"]) for b in post["blocks"] for r in b["recs"] if r["n"]]
+        for b in post["blocks"]:
+            ok, bad = py_block_ok(b)
+            if not ok:
+                rep.violate("addr:" + (bad["k"] if bad else "block-end"), "address given to a statement differs from base + bytes before it", inp, statement=bad)
+        for c in post["containers"]:
+            if "refused" in c:
+                rep.count("container:refused:" + c["fmt"])
+                continue
+            key = "%s:%s:%s" % (c["fmt"], c["via"], "odd" if base % 2 else "even")
+            rep.count("container:" + key)
+            if "err" in c:
+                rep.disagree("container not readable by the C02 reader (its format is C13's)", inp, impl=c)
+                continue
+            load = base if c["load"] is None else c["load"]   # raw carries no address: the bytes start at the link base
+            payload = bytes.fromhex(c["payload"])
+            rep.nontrivial(("emit", c["fmt"], c["via"], base, o["code"]))
+            what = None
+            for a, hx, t in chunks:
+                bs = bytes.fromhex(hx)
+                if a - load < 0 or payload[a - load:a - load + len(bs)] != bs:
+                    what = ("placement", "the container says its bytes are loaded from %#o, but the bytes found there at the address %#o a statement was given "
+                            "are not the bytes that statement produced" % (load, a), {"statement": t, "address": a})
+                    break
+            if what is None and origin == "emit":
+                # model-free: label values read back from the loaded image must point at the labels' marker bytes
+                for k, l in enumerate(meta["labels"]):
+                    v = payload[2 * k] | (payload[2 * k + 1] << 8)
+                    if payload[v - load:v - load + 2] != bytes([0o252, k + 1]) or v < load:
+                        what = ("label-readback", "label value %#o stored in the image does not point (image loaded from %#o) at the bytes of the labelled statement"
+                                % (v, load), {"label": l, "value": v})
+                        break
+            if what is None and (c["length"] != len(payload) or len(payload) != len(image)):
+                what = ("length", "container length differs from the sum of the statement sizes", {"announced": c["length"], "carried": len(payload), "image": len(image)})
+            if what is not None:
+                rep.violate("loaded-image:%s:%s:%s" % (what[0], c["fmt"], "odd-base" if base % 2 else "even-base"), what[1], inp,
+                            container={k: c[k] for k in ("fmt", "via", "path", "load", "length")}, link_base=base, **what[2])
+            if len(payload) <= 3000 and chunks:
+                terms.append("(%s, %s, [%s])" % (C.zlit(load), C.zlist(payload), "; ".join("(%s, %s)" % (C.zlit(a), C.zlist(bytes.fromhex(h))) for a, h, _ in chunks)))
+                refs.append((ci, c))
+    codes = C.run_case_files(ID + "emit", "Run.C02Run", "Open Scope Z_scope.", C.shard(terms, 80), judge_expr="map judge_image cases", cases_type="list (Z * list Z * list (Z * list Z))")
+    flat = [c for sh in codes for c in sh]
+    for (ci, c), code in zip(refs, flat):
+        if code & 2:
+            origin, files, fs, _ = cases[ci]
+            rep.violate("loaded-image-coq:%s:%s" % (c["fmt"], "odd-base" if outs[ci]["base"] % 2 else "even-base"),
+                        "Coq judge_image: the slice of the container's payload at (statement address - container load address) differs from the statement's bytes",
+                        {"files": files, "fs": {k: (v if isinstance(v, str) else v.hex()) for k, v in (fs or {}).items()}},
+                        container={k: c[k] for k in ("fmt", "via", "path", "load", "length")}, link_base=outs[ci]["base"])
+    rep.extra["containers_judged_in_coq"] = len(terms)
+
+
+_explore_core = explore
+
+
+def explore(rep, br, tier, seed):
+    _explore_core(rep, br, tier, seed)
+    explore_emit(rep, tier, seed)
 
 
 # --- R, the end-to-end reference assembler (Model/Asm.v): Props/R.v composes C02 with C01, C05, C06 on whole programs;
